@@ -188,3 +188,84 @@ def find_region(fn: ast.FunctionDef, anchor):
         return list(body[start:j])
     count = anchor.get("count", 1)
     return list(body[start:i + count])
+
+
+def _assigned_name(st, position=0):
+    """The local a region statement assigns: Assign / AnnAssign / AugAssign -> the target name (for a tuple target the
+    `position`-th element); If -> the one name assigned in every branch (position-th of the sorted common names)."""
+    if isinstance(st, ast.Assign) and len(st.targets) == 1:
+        t = st.targets[0]
+        if isinstance(t, ast.Name) and position == 0:
+            return t.id
+        if isinstance(t, (ast.Tuple, ast.List)) and position < len(t.elts) and isinstance(t.elts[position], ast.Name):
+            return t.elts[position].id
+    if isinstance(st, (ast.AnnAssign, ast.AugAssign)) and isinstance(st.target, ast.Name) and position == 0:
+        return st.target.id
+    if isinstance(st, ast.If):
+        def names(body):
+            out = set()
+            for b in body:
+                for n in ast.walk(b):
+                    if isinstance(n, ast.Assign):
+                        for t in n.targets:
+                            if isinstance(t, ast.Name):
+                                out.add(t.id)
+            return out
+        branches = []
+        cur = st
+        while True:
+            branches.append(names(cur.body))
+            if len(cur.orelse) == 1 and isinstance(cur.orelse[0], ast.If):
+                cur = cur.orelse[0]
+                continue
+            branches.append(names(cur.orelse))
+            break
+        common = sorted(set.intersection(*branches)) if branches else []
+        if position < len(common):
+            return common[position]
+    raise LookupError(f"anchor not found: no assigned local at position {position} of `{ast.unparse(st).splitlines()[0][:60]}`")
+
+
+def resolve_local_names(contract, stmts):
+    """Contracts of code regions talk about locals by ROLE (`bind_locals`: role name -> (statement index in the region, position)), not
+    by the name the source happens to use: the clauses are rewritten to the actual names found in the current source."""
+    binds = contract.get("bind_locals")
+    if not binds:
+        return contract
+    actual = {}
+    for role, (k, pos) in binds.items():
+        st = stmts[k]
+        if isinstance(st, ast.For) and pos == "target":
+            raise LookupError("anchor not found: loop targets are not bound by role")
+        actual[role] = _assigned_name(st, pos)
+    if all(a == r for r, a in actual.items()):
+        return contract
+
+    class R(ast.NodeTransformer):
+        def visit_Name(self, node):
+            if node.id in actual:
+                return ast.copy_location(ast.Name(id=actual[node.id], ctx=node.ctx), node)
+            return node
+
+    def rw(text):
+        return ast.unparse(R().visit(ast.parse(text.strip(), mode="eval")))
+    c = dict(contract)
+    for key in ("requires", "ensures"):
+        if key in c:
+            c[key] = [rw(t) for t in c[key]]
+    def rw_stmt(text):
+        return ast.unparse(R().visit(ast.parse(text)))
+    if "loops" in c:
+        new_loops = {}
+        for k, v in c["loops"].items():
+            v = dict(v, **{kk: [rw(t) for t in v[kk]] for kk in ("invariant", "lemmas", "axiom_instances") if kk in v})
+            if "ghost_step" in v:
+                v["ghost_step"] = [rw_stmt(t) for t in v["ghost_step"]]
+            if "ghost" in v:
+                v["ghost"] = {g: rw(t) for g, t in v["ghost"].items()}
+            new_loops[k] = v
+        c["loops"] = new_loops
+    if "local_kinds" in c:
+        c["local_kinds"] = {actual.get(k, k): v for k, v in c["local_kinds"].items()}
+    c["resolved_locals"] = actual
+    return c
